@@ -1125,6 +1125,12 @@ class Engine:
                 has = self.uf(f"has_{nm.lit}", [OBJ], B)(base.t)
                 return self.ite_val(has, val, args[2], line)
             return val
+        if isinstance(base, VOpt):
+            inner = self.bi_getattr([base.val] + list(args[1:]), kw, env, pc, line)
+            if len(args) == 3:
+                return self.ite_val(base.isnone, args[2], inner, line)       # None has none of the declared attributes: the default
+            self.may_raise("AttributeError", base.isnone, pc, line, f"getattr-on-None:{nm.lit}")
+            return inner
         raise Undecided(f"getattr on {type(base).__name__}", line)
 
     def bi_hasattr(self, args, kw, env, pc, line):
@@ -1200,6 +1206,14 @@ class Engine:
             # str -> str methods whose result is not interpreted: an unconstrained string (over-approximation)
             self.assumptions.add(f"uninterpreted: str.{attr} returns some str")
             return VStr(self.uf(f"str_{attr}", [STR] + [t.sort() for a in args for t in self.flatten(a)], STR)(recv.t, *[t for a in args for t in self.flatten(a)]))
+        if isinstance(recv, VStr) and attr in ("find", "rfind", "count"):
+            # str -> int searches: an uninterpreted function of the receiver and the arguments, within the documented range
+            flat = [t for a in args for t in self.flatten(a)]
+            r = self.uf(f"str_{attr}", [STR] + [t.sort() for t in flat], I)(recv.t, *flat)
+            pc.append(r >= (0 if attr == "count" else -1))
+            pc.append(r <= strlen(recv.t))
+            self.assumptions.add(f"uninterpreted: str.{attr} returns an int in [{0 if attr == 'count' else -1}, len]")
+            return VInt(r)
         raise Undecided(f"method .{attr} on {type(recv).__name__} has no model", line)
 
     # ------------------------------------------------------------------ statements
